@@ -9,7 +9,7 @@
 (* VectorDiff means; every other module (Vec, Adapters, the Trace* and     *)
 (* Gen* modules) uses these operators and adds no semantics of its own.    *)
 (***************************************************************************)
-EXTENDS Integers, Sequences, FiniteSets, SequencesExt
+EXTENDS Integers, Sequences, FiniteSets
 
 Min(a, b) == IF a < b THEN a ELSE b
 Max(a, b) == IF a > b THEN a ELSE b
